@@ -19,6 +19,10 @@ DOC = {
         'C09.R4': 'visited set consulted only under follow_links; hidden = file name starts with "."; .gitignore consulted unless no_ignore',
         'C09.R5': 'include/exclude path patterns are made absolute with abs_pattern(base_dir, _); name patterns are not',
         'C09.R6': 'visit_dir reads a directory iff level < depth && matches_dir && (!one_fs || same_fs) (reach table over these atoms)',
+        'C09.R11': 'marking an entry as visited (follow_links) does not cut off routes that would get further: the mark is made after the route-dependent .gitignore test, and either it records the nesting level (a directory reached again at a smaller level is read again) or it is made only after the --depth test passed',
+        'C09.R10': 'a --regex pattern is never joined with anchors (^...$) or with another pattern (base directory + relative pattern) without a grouping step for a top-level alternation: `^a|b$` means (^a)|(b$), which selects files that are not matched fully and makes the fixed prefix used for pruning the prefix of the first alternative only',
+        'C09.R9': 'matches_dir prunes a directory because of an --exclude pattern only through a predicate that holds for the whole subtree: the regex match of the directory path is gated by a test that the pattern source ends with `.*` (`**`); a bare prefix or full match of the directory path is not conservative (`--exclude o` would prune `other/`)',
+        'C09.R8': 'the visited set (follow_links) is keyed by a path identity hash that delimits the hashed components (re-evaluates C03.R9 on the key function found at the insert)',
         'C09.R7': 'visit_link: the link itself is reported iff it resolves to a file and report_links; the target is visited iff follow_links && (!one_fs || same_fs(target)) and the link was not reported; nothing happens when neither follow_links nor report_links',
     },
     'not_decided': '.gitignore semantics (external crate); symlink resolution on a real file system; completeness of the parallel traversal; glob semantics (C16)',
@@ -36,8 +40,198 @@ def run(ctx):
     r4(ctx)
     r5(ctx)
     r67(ctx)
+    r8(ctx)
+    r9(ctx)
+    r10(ctx)
+    r11(ctx)
     from .common import run_mandatory
     run_mandatory(ctx, 'C09')
+
+
+def visited_sites(lib, b):
+    """[(call in b, body holding the access, access call)]: places where `b` consults/updates the `visited` collection, directly or through a local method"""
+    out = []
+
+    def direct(x):
+        return [c for c in x.calls(r'::(insert|entry|contains|contains_key|get|get_mut)$') if c.args and 'visited' in backslice(x, [c.args[0]]).field_names()]
+    for c in direct(b):
+        out.append((c, b, c))
+    for c in b.calls():
+        if c.f.get('local') and c.path != b.path:
+            m = lib.body(c.path)
+            if m is not None and m.file.endswith('walk.rs'):
+                for k in direct(m):
+                    out.append((c, m, k))
+    return out
+
+
+def r8(ctx):
+    """the visited set of the walk is keyed by a value computed from the entry path; that key must not merge distinct paths"""
+    rule = 'C09.R8'
+    from .common import delimited_identity_hash
+    b = ctx.need_body(rule, W + 'visit_entry')
+    if b is None:
+        return
+    sites = visited_sites(ctx.lib, b)
+    if not sites:
+        ctx.missing(rule, 'visited.insert in visit_entry', b.where())
+        return
+    ins = [k for _, _, k in sites]
+    kb = {id(k): m for _, m, k in sites}
+    keyfns = sorted({c.path for i in ins for c in backslice(kb[id(i)], [i.args[1]]).calls if c.f.get('local')})
+    ctx.check(bool(keyfns), rule, b.path + '|visited-key', ins[0].where(), 'the visited set is keyed by %s' % keyfns, 'the visited set is keyed by something that no local function computes from the entry')
+    for k in keyfns:
+        if ctx.lib.body(k) is not None and (ctx.lib.body(k).calls(r'Hasher|Hash>::hash') or 'hash' in k):
+            delimited_identity_hash(ctx, rule, k)
+
+
+def r9(ctx, rule='C09.R9'):
+    from .common import bypass_decisions
+    from ..facts import const_val
+    lib = ctx.lib
+    md = ctx.need_body(rule, 'selector::PathSelector::matches_dir')
+    if md is None:
+        return
+    bodies = [md] + [lib.body(c) for c in lib.closures_of(md.path)]
+    preds = []
+    for b in bodies:
+        for c in b.calls(r'Iterator>::(all|any)$|Iterator::(all|any)$'):
+            if 'excluded_paths' not in backslice(b, [c.args[0]]).field_names():
+                continue
+            cp = lib.closure_of_type(b.local_ty(op_local(c.args[1]))) if op_local(c.args[1]) is not None else None
+            cb = lib.body(cp) if cp else None
+            if cb is None:
+                continue
+            for pc in cb.calls(r'^pattern::Pattern::\w+$'):
+                preds.append((cb, pc))
+    if not ctx.floor(rule, 'exclude predicates in matches_dir', len(preds), 1, md.where()):
+        return
+    MATCH = r'regex::Regex::(is_match|is_partial_match)$|^pattern::Pattern::(matches|matches_prefix|matches_partially|matches_path)$'
+    for cb, pc in preds:
+        m = lib.body(pc.path)
+        name = pc.path.rsplit('::', 1)[-1]
+        if m is None:
+            ctx.missing(rule, 'body of ' + pc.path, pc.where())
+            continue
+        matches = m.calls(MATCH)
+        gated = []
+        for mc in matches:
+            ok = False
+            for d, bypass in bypass_decisions(m, mc.bb):
+                sl = backslice(m, [m.blocks[d]['term']['op']])
+                for sc in sl.calls:
+                    if sc.matches(r'str::<impl str>::(strip_suffix|ends_with)$') and any('.*' in (const_val(a) or '') for a in sc.args[1:]) and 'src' in backslice(m, [sc.args[0]]).field_names():
+                        # the bypass side yields false
+                        ok = True
+            gated.append(ok)
+        good = bool(matches) and all(gated)
+        ctx.check(good, rule, '%s|exclude-prune|%s' % (md.path, name), pc.where(),
+                  'directories are pruned by an exclude pattern through Pattern::%s, whose regex match is gated by `src` ending with `.*`' % name,
+                  'directories are pruned by an exclude pattern through Pattern::%s, which %s: a pattern that matches (a prefix of) the directory path but not every path below it '
+                  '(`--exclude o` against `other/`, `--exclude /a/b` against `/a/bcd/`) makes the walk skip files that the options select' % (
+                      name, 'is a regex match not gated by a test that the pattern ends with `.*`' if matches else 'contains no regex match'))
+
+
+def _all_consts(body):
+    out = []
+    for blk in body.blocks:
+        for st in blk['stmts']:
+            rv = st['rv']
+            for o in ([rv.get('op')] if rv.get('op') and isinstance(rv.get('op'), dict) else []) + list(rv.get('ops') or []):
+                v = const_val(o) if isinstance(o, dict) else None
+                if v:
+                    out.append(v)
+        t = blk['term']
+        if t['k'] == 'call':
+            for a in t.get('args', []):
+                v = const_val(a)
+                if v:
+                    out.append(v)
+    return out
+
+
+def _groups(lib, body, operand):
+    """the value of `operand` passed a grouping step: a constant with an opening group in its slice, or a local callee that can wrap its argument in a group"""
+    sl = backslice(body, [operand])
+    from ..analysis import slice_const_values
+    if any('(?:' in (v or '') or (v or '').strip('"').endswith('(') for v in slice_const_values(lib, sl)):
+        return True
+    for c in sl.calls:
+        if c.f.get('local'):
+            cb = lib.body(c.path)
+            if cb is not None and any('(?:' in v for v in _all_consts(cb)):
+                return True
+    return False
+
+
+def r11(ctx):
+    rule = 'C09.R11'
+    lib = ctx.lib
+    b = ctx.need_body(rule, W + 'visit_entry')
+    if b is None:
+        return
+    sites = visited_sites(lib, b)
+    if not ctx.floor(rule, 'visited mark in visit_entry', len(sites), 1, b.where()):
+        return
+    c, kbody, kcall = sites[0]
+    # (a) the ignore test comes first
+    gi = b.calls(r'IgnoreStack::matches$')
+    oka = bool(gi) and not any(g.bb in b.reachable(c.bb) for g in gi)
+    ctx.check(oka, rule, b.path + '|ignore-before-mark', c.where(), 'the .gitignore test (which depends on the route: the stack of ignore files of the parents) precedes the visited mark',
+              'an entry is marked as visited before the .gitignore test: ignored on one route (ignore file of that parent chain) it is never visited on another route where nothing ignores it')
+    # (b) level-aware record, or mark after the depth test
+    names = set()
+    bodies = [kbody] + [lib.body(x) for x in lib.closures_of(kbody.path)]
+    for x in bodies:
+        for k in x.calls(r'::(insert|or_insert|or_insert_with|and_modify)$'):
+            for a in k.args:
+                sl = backslice(x, [a])
+                names |= sl.param_names(x) | {n for _, n in sl.upvars}
+        for blk in x.blocks:
+            for st in blk['stmts']:
+                if st['p'][1] and st['p'][1][0] == '*':       # *visited_level = level
+                    sl = backslice(x, [st['rv'].get('op')]) if st['rv'].get('op') else None
+                    if sl:
+                        names |= sl.param_names(x) | {n for _, n in sl.upvars}
+    level_aware = 'level' in names
+    in_visit_dir = kbody.path.endswith('visit_dir')
+    after_depth = False
+    if in_visit_dir:
+        for cmp in comparisons(kbody):
+            if 'depth' in backslice(kbody, [cmp.a]).field_names() | backslice(kbody, [cmp.b]).field_names():
+                br = branch_of(kbody, cmp)
+                after_depth = bool(br) and (kbody.dominates(br[1], kcall.bb) or kbody.dominates(br[2], kcall.bb))
+    ctx.check(level_aware or after_depth, rule, b.path + '|mark-vs-depth', kcall.where(),
+              'the visited record carries the nesting level' if level_aware else 'directories are marked only after the depth test',
+              'a directory is marked as visited before the --depth test and without its level: first reached at the depth limit (not read) it is skipped when reached again at a smaller '
+              'level (overlapping roots `group R/a/b R --depth 2 -L`, or a symlink that is a shortcut into the tree), so files within the depth limit are lost')
+
+
+def r10(ctx, rule='C09.R10'):
+    lib = ctx.lib
+    rw = ctx.need_body(rule, 'pattern::Pattern::regex_with')
+    if rw is not None:
+        news = rw.calls(r'regex::Regex::new$')
+        if ctx.floor(rule, 'Regex::new calls in regex_with', len(news), 2, rw.where()):
+            for i, c in enumerate(news):
+                ctx.check(_groups(lib, rw, c.args[0]), rule, '%s|anchors-bind-whole-pattern|%d' % (rw.path, i), c.where(),
+                          'the pattern passes a grouping step before the anchors are added',
+                          'the anchors are concatenated to the raw pattern: with a top-level alternation (`--regex --name "a|b"`) `^a|b$` selects every name that starts with a or ends with b, '
+                          'and the fixed prefix used to prune directories is that of the first alternative only (`--regex --path "/x/a/.*|/x/b/.*"` never enters /x/b)')
+    adds = [b for p_, b in lib.bodies.items() if re.search(r'^<pattern::Pattern as std::ops::Add.*>::add$', p_)]
+    if not adds:
+        ctx.missing(rule, 'impl Add for Pattern')
+        return
+    ab = adds[0]
+    rc = ab.calls(r'pattern::Pattern::regex(_with)?$')
+    if not rc:
+        ctx.missing(rule, 'Pattern::regex in Pattern::add', ab.where())
+        return
+    # both operands of the concatenation
+    sl = backslice(ab, [rc[0].args[0]])
+    n_group = sum(1 for c in sl.calls if c.f.get('local') and lib.body(c.path) is not None and any('(?:' in v for v in _all_consts(lib.body(c.path))))
+    ctx.check(n_group >= 2, rule, '%s|operands-grouped' % ab.path, rc[0].where(), 'both operands of a pattern concatenation pass the grouping step',
+              'patterns are concatenated as raw text (%d grouping step(s) for 2 operands): base directory + relative `a|b` becomes `/base/a|b`, whose second alternative is not under the base directory' % n_group)
 
 
 def r1(ctx):
@@ -334,10 +528,9 @@ def r4(ctx):
     if b is None:
         return
     P = b.path
-    ins = b.calls(r'DashSet<.*>::insert$|DashSet::<.*>::insert$|HashSet.*::insert$|::insert$')
-    ins = [c for c in ins if 'visited' in backslice(b, [c.args[0]]).field_names()]
-    if ctx.floor(rule, 'visited.insert in visit_entry', len(ins), 1, b.where()):
-        c = ins[0]
+    sites = visited_sites(lib, b)
+    if ctx.floor(rule, 'visited.insert in visit_entry', len(sites), 1, b.where()):
+        c, kbody, kcall = sites[0]
         ok = False
         for d in b.dominators()[c.bb]:
             t = b.blocks[d]['term']
@@ -346,8 +539,8 @@ def r4(ctx):
                 n = count_nots(b, backslice(b, [t['op']]))
                 ok = b.dominates(tt if n % 2 == 0 else ft, c.bb)
         ctx.check(ok, rule, P + '|visited-only-when-following', c.where(), 'the visited set is consulted only under follow_links', 'the visited set is consulted without follow_links (overlapping roots would lose files)')
-        ksl = backslice(b, [c.args[1]])
-        ctx.check(ksl.has_call(r'path::Path::hash128$') and 'path' in ksl.field_names(), rule, P + '|visited-key', c.where(), 'visited key = hash of the entry path', 'visited key is not derived from the entry path')
+        ksl = backslice(kbody, [kcall.args[1]])
+        ctx.check(ksl.has_call(r'path::Path::hash128$') and 'path' in ksl.field_names(), rule, P + '|visited-key', kcall.where(), 'visited key = hash of the entry path', 'visited key is not derived from the entry path')
     sw = b.calls(r'str::<impl str>::starts_with$|::starts_with$')
     if ctx.floor(rule, 'hidden test (starts_with) in visit_entry', len(sw), 1, b.where()):
         c = sw[0]
